@@ -366,3 +366,30 @@ def capture(ctx, rid="C06.capture"):
             ok = ok and prot
         ctx.ob(rid, ok, f.where, "call_returning_future runs the functor inside try/catch(...) set_exception",
                "" if ok else "the functor's exception would escape modify_async", fn=f.label, inst=f.qname)
+        # the promise is satisfied exactly once: set_value only inside the try (after the functor returned normally),
+        # set_exception only in the handler, nothing after the try statement
+        tries = [s_ for s_ in f.stmts.values() if s_["k"] == "CXXTryStmt"]
+        sets = [s_ for s_ in f.stmts.values() if s_["k"] == "CXXMemberCallExpr" and s_["callee"]["name"] in ("set_value", "set_exception")
+                and (s_["callee"].get("rec", "").startswith("std::promise"))]
+        ok = len(tries) == 1 and bool(sets)
+        detail = ""
+        if ok:
+            body = {d["id"] for d in f.descendants(f.s(tries[0]["try"]))}
+            hand = {d["id"] for h in tries[0]["handlers"] for d in f.descendants(f.s(h))}
+            for s_ in sets:
+                if s_["callee"]["name"] == "set_value" and s_["id"] not in body:
+                    ok = False
+                    detail = "set_value at %s is outside the try block: after a throwing functor the handler has already stored " \
+                             "the exception and this second set throws future_error out of modify_async" % f.loc(s_)
+                if s_["callee"]["name"] == "set_exception" and s_["id"] not in hand:
+                    ok = False
+                    detail = "set_exception outside the handler"
+            # within the try: the functor application precedes set_value
+            for a in apps:
+                for s_ in sets:
+                    if s_["callee"]["name"] == "set_value" and s_["id"] in body and a["id"] in body:
+                        if not (f.dominates(f.pos_of(a), f.pos_of(s_))):
+                            ok = False
+                            detail = "set_value does not follow the functor application"
+        ctx.ob(rid, ok, f.where, "the promise is satisfied exactly once: value inside the try after the functor, exception in the handler",
+               detail, fn=f.label, inst=f.qname)
